@@ -56,6 +56,10 @@ def check_pair(A, B, acc, uname):
     _call(acc, "oob:intersect", case, lambda: so.set_intersect_merge_np(a, b))
     _call(acc, "oob:union", case, lambda: so.set_union_merge_np(a, b))
     _call(acc, "oob:difference", case, lambda: so.set_difference_merge_np(a, b))
+    sa, sb = K.strided(A), K.strided(B)
+    _call(acc, "oob:intersect", dict(case, layout="strided"), lambda: so.set_intersect_merge_np(sa, sb))
+    _call(acc, "oob:union", dict(case, layout="strided"), lambda: so.set_union_merge_np(sa, sb))
+    _call(acc, "oob:difference", dict(case, layout="strided"), lambda: so.set_difference_merge_np(sa, sb))
     _call(acc, "oob:intersection-wrapper", case, lambda: so.intersection(a, b))
     _call(acc, "oob:union-wrapper", case, lambda: so.union(a, b))
     _call(acc, "oob:difference-wrapper", case, lambda: so.difference(a, b))
